@@ -14,6 +14,7 @@ import shutil
 import subprocess
 import sys
 import tempfile
+import threading
 import time
 
 sys.path.insert(0, os.path.dirname(__file__))
@@ -49,11 +50,14 @@ class Ctx:
         self.notes = []
         self._specdir = None
         self._n = 0
+        self._lock = threading.Lock()
 
     # ------------------------------------------------------------------ scratch
     def sub(self, name):
-        self._n += 1
-        d = os.path.join(self.work, '%02d-%s' % (self._n, name))
+        with self._lock:
+            self._n += 1
+            n = self._n
+        d = os.path.join(self.work, '%03d-%s' % (n, name))
         os.makedirs(d, exist_ok=True)
         return d
 
@@ -82,7 +86,7 @@ def build_harness(ctx, race=False):
     if REPO != '/repo':
         # a scratch copy of the repository: point the replace directive at it
         hd = os.path.join(ctx.work, 'harness-src')
-        shutil.copytree(HARNESS, hd)
+        shutil.copytree(HARNESS, hd, dirs_exist_ok=True)
         gm = open(os.path.join(hd, 'go.mod')).read().replace('/repo/ociregistry', REPO + '/ociregistry')
         open(os.path.join(hd, 'go.mod'), 'w').write(gm)
         src = hd
@@ -453,6 +457,8 @@ def finish(ctx, level='model_checking', rule='', extra=None):
     cov = ctx.cov
     cov['rule'] = rule
     cov['known_findings_seen'] = [k['id'] for k in ctx.known]
+    if ctx.notes:
+        cov['notes'] = ctx.notes
     if extra:
         cov.update(extra)
     if not cov['samples']:
